@@ -1,36 +1,21 @@
 #!/usr/bin/env python3
-"""writes units/colamd_b/unit.json: one variant per shape; the per-loop unwinding bounds are functions of the shape (iterations + 1);
-a bound that is too small fails its unwinding assertion (exit 2), it cannot make an obligation pass."""
-import json, os, sys
-def variant(nr, nc, nnz, inputs=0, knobs=0, extra=None, tag=''):
-    z = nnz + nnz // 10                      # largest p[n_col] that still fits into Alen = recommended(nnz)
+"""writes units/colamd_b/unit.json from variants.json (one variant per shape / input class / knob setting).
+--unwind is a generous constant per variant: on every path the loop bounds of colamd are concrete, a bound that were too small would fail
+its unwinding assertion (exit 2), it cannot make an obligation pass."""
+import json, os
+KN = {0: 'default knobs', 1: 'knobs=NULL', 2: 'dense knobs<0', 3: 'dense knobs<0, no aggressive absorption', 4: 'no aggressive absorption'}
+def variant(nr, nc, nnz=None, inputs=2, knobs=0, alenmode=0, extra=None):
+    if nnz is None: nnz = nr * nc
     alen = 2 * nnz + nnz // 5 + 6 * (nc + 1) + 4 * (nr + 1) + nc
-    col = min(nr, z) + 1                     # entries of a (pruned) column + 1
-    row = min(nc, z) + 1
-    v = dict(name=f'{nr}x{nc},nnz{"=" if inputs else "<="}{nnz}{tag}', NR=nr, NC=nc, NNZ=nnz, INPUTS=inputs, KNOBS=knobs,
-             unwind=alen + 2,
-             UC=nc + 1, UC2=nc + 2, UR=nr + 1, UZ=z + 1, UCOL=col, UROW=row, UGC=2 * z + nc + z // 5 + 2)
+    v = dict(name=f'{nr}x{nc},' + ('' if inputs == 4 else f'nnz<={nnz},') + f'{"legal" if inputs == 2 else "any input" if inputs == 3 else "sorted patterns" if inputs == 4 else "symbolic"},{KN[knobs]}'
+                  + (',Alen=minimum' if alenmode else '') + (f",half {extra['SPLIT']}" if extra and 'SPLIT' in extra else ''),
+             NR=nr, NC=nc, NNZ=nnz, INPUTS=inputs, KNOBS=knobs, ALENMODE=alenmode, unwind=alen + 30)
     if extra: v.update(extra)
     return v
-LOOPS = {
- 'colamd.0': 21, 'colamd_set_defaults.0': 21, 't_mult.0': 25,
- 'init_rows_cols.0': '@UC@', 'init_rows_cols.1': '@UR@', 'init_rows_cols.2': '@UZ@', 'init_rows_cols.3': '@UC@', 'init_rows_cols.4': '@UR@',
- 'init_rows_cols.5': '@UZ@', 'init_rows_cols.6': '@UC@', 'init_rows_cols.7': '@UZ@', 'init_rows_cols.8': '@UC@', 'init_rows_cols.9': '@UR@',
- 'init_rows_cols.10': '@UC@', 'init_rows_cols.11': '@UROW@', 'init_rows_cols.12': '@UR@',
- 'init_scoring.0': '@UC@', 'init_scoring.1': '@UCOL@', 'init_scoring.2': '@UC@', 'init_scoring.3': '@UR@', 'init_scoring.4': '@UCOL@',
- 'init_scoring.5': '@UC@', 'init_scoring.6': '@UC2@', 'init_scoring.7': '@UC@',
- 'clear_mark.0': '@UR@',
- 'find_ordering.0': '@UC@', 'find_ordering.1': '@UROW@', 'find_ordering.2': '@UCOL@', 'find_ordering.3': '@UCOL@', 'find_ordering.4': '@UCOL@',
- 'find_ordering.5': '@UC@', 'find_ordering.6': '@UCOL@', 'find_ordering.7': '@UC@', 'find_ordering.8': '@UC@', 'find_ordering.9': '@UC@',
- 'detect_super_cols.0': '@UCOL@', 'detect_super_cols.1': '@UC@', 'detect_super_cols.2': '@UC@', 'detect_super_cols.3': '@UC@',
- 'order_children.0': '@UC@', 'order_children.1': '@UC@', 'order_children.2': '@UC@', 'order_children.3': '@UC@',
- 'garbage_collection.0': '@UCOL@', 'garbage_collection.1': '@UC@', 'garbage_collection.2': '@UR@', 'garbage_collection.3': '@UROW@', 'garbage_collection.4': '@UGC@',
-}
 def main():
     here = os.path.dirname(os.path.abspath(__file__))
     cfg = json.load(open(os.path.join(here, 'variants.json')))
     u = cfg['unit']
-    u['cbmc'] = ['--sat-solver', 'cadical', '--unwindset', ','.join(f'{k}:{v}' for k, v in LOOPS.items())]
     u['variants'] = [variant(**a) for a in cfg['quick']]
     u['tiers'] = {'thorough': {'timeout': cfg.get('thorough_timeout', 3600), 'variants': [variant(**a) for a in cfg['thorough']]}}
     json.dump(u, open(os.path.join(here, 'unit.json'), 'w'), indent=1)
